@@ -61,6 +61,10 @@ func (its *SnapshotDatatype) SetMetaAndSnapshot(meta, snap []byte) errors.OrdaEr
 	if err := json.Unmarshal(snap, its.GetSnapshot()); err != nil {
 		return errors.DatatypeMarshal.New(its.L(), err.Error())
 	}
+	// the restored state is what a failing transaction has to roll back to from now on
+	if tx, ok := its.Datatype.(interface{ SetRollbackPoint(meta, snap []byte) }); ok {
+		tx.SetRollbackPoint(meta, snap)
+	}
 	return nil
 }
 
